@@ -366,6 +366,23 @@ def run(repo: Repo, chk: Check, thorough: bool = False) -> None:
             if isinstance(full, str) and full.startswith(RANDOMNESS):
                 chk.ob('R18.1', f'{f.qn} :: {norm(c)[:40]}', False, f'{full}: non-reproducible value', repo.loc(f.mod, c))
     chk.stats['id_hash_calls'] = n_id
+    # process-wide counters: a class attribute advanced through the class object survives from one run to the next in the same interpreter
+    # (the Sphinx extension, repeated driver.main() calls); what is derived from it must be reset per run / per page
+    for f in sorted(repo.funcs.values(), key=lambda f: f.qn):
+        if not f.mod.name.startswith('pydoctor.templatewriter') or f.cls is None:
+            continue
+        for n in f.walk():
+            if isinstance(n, ast.AugAssign) and isinstance(n.target, ast.Attribute) and isinstance(n.target.value, ast.Name) and \
+                    (n.target.value.id in f.mod.classes or n.target.value.id == 'cls'):
+                attr = n.target.attr
+                cname = n.target.value.id
+                resets = [(g, m) for g in repo.funcs.values() if g.mod.name.startswith('pydoctor.templatewriter') and g is not f for m in g.walk()
+                          if isinstance(m, ast.Assign) and any(isinstance(t, ast.Attribute) and t.attr == attr and isinstance(t.value, ast.Name) and
+                                                               t.value.id == cname for t in m.targets) and isinstance(m.value, ast.Constant)]
+                chk.ob('R18.1', f'{f.qn} :: process-wide counter {cname}.{attr}', bool(resets),
+                       f'reset in {resets[0][0].qn}' if resets else
+                       f'`{norm(n)}` advances a counter stored on the class and nothing ever resets it: values derived from it (element ids) depend on everything '
+                       'rendered before in the same process - a second identical run in one interpreter writes different bytes', repo.loc(f.mod, n))
 
     # ------------------------------------------------------------------ R18.2
     n_list = 0
